@@ -547,6 +547,9 @@ func (ch c15) Run(c *core.Ctx) {
 	if c.Batch%4 == 1 && c.Begin(70000003) {
 		ch.restGroup(c)
 	}
+	if c.Batch%4 == 2 && c.Begin(70000004) {
+		ch.sharedStatements(c)
+	}
 	ngroups, reps := 640, 3
 	if c.Tier == "thorough" {
 		ngroups, reps = 20000, 5
@@ -951,4 +954,82 @@ func (ch c15) restGroup(c *core.Ctx) {
 	if differs == 3 {
 		c.Violate("rest-differs", "a client that rests between two queries is treated differently when other connections of the server are busy", fmt.Sprintf("alone: %s; among 40 busy neighbours: %s (three repetitions in a row)", solo, busy), nil)
 	}
+}
+
+// sharedStatements: the parser of the embedding program keeps one prepared-statement object per query text
+// and hands it to every connection that parses that text. Eight connections define it under their own names,
+// bind, describe and execute portals and close statement and portals again, at the same time: what one
+// connection closes, re-parses or binds leaves the others' names and portals as they are.
+func (ch c15) sharedStatements(c *core.Ctx) {
+	var cache sync.Map
+	parse := func(ctx context.Context, query string) (wire.PreparedStatements, error) {
+		q := string(append([]byte(nil), query...))
+		if st, ok := cache.Load(q); ok {
+			return wire.PreparedStatements{st.(*wire.PreparedStatement)}, nil
+		}
+		cols := wire.Columns{{Name: "c", Oid: oid.T_text, Width: -1}}
+		st := wire.NewStatement(func(ctx context.Context, w wire.DataWriter, params []wire.Parameter) error {
+			v := ""
+			if len(params) > 0 {
+				v = string(params[0].Value())
+			}
+			w.Row([]any{q + "/" + v})
+			return w.Complete("SELECT 1")
+		}, wire.WithColumns(cols), wire.WithParameters(wire.ParseParameters(q)))
+		actual, _ := cache.LoadOrStore(q, st)
+		return wire.PreparedStatements{actual.(*wire.PreparedStatement)}, nil
+	}
+	env := hs.Start(parse)
+	defer env.Stop()
+	run := func(k int, yield func()) string {
+		conn := tr.NewConn(nil)
+		conn.Yield = yield
+		env.L.DialConn(conn)
+		cl := hs.NewClient(conn)
+		if err := cl.StartupOK("u"); err != nil {
+			return "startup failed: " + err.Error()
+		}
+		var out []byte
+		for r := 0; r < 6; r++ {
+			val := [][]byte{[]byte(fmt.Sprintf("v%d.%d", k, r))}
+			for _, m := range [][]byte{
+				pg.Parse("s", "select $1 /* shared text */", nil), pg.Bind("p", "s", nil, val, nil), pg.Bind("", "s", nil, val, nil), pg.Sync(),
+				pg.Describe('P', "p"), pg.Execute("p", 0), pg.Close('S', "s"), pg.Sync(),
+				pg.Parse("s", "select $1 /* shared text */", nil), pg.Bind("p2", "s", nil, val, nil), pg.Execute("p2", 0), pg.Close('P', "p2"), pg.Close('P', "p"), pg.Sync(),
+			} {
+				o, closed := cl.Step(m)
+				out = append(out, o...)
+				if closed || cl.Hung {
+					return replyKinds(out) + " <connection ended>"
+				}
+			}
+		}
+		cl.Finish()
+		return strings.ReplaceAll(replyKinds(out), fmt.Sprintf("v%d.", k), "v<k>.")
+	}
+	solo := run(0, nil)
+	if !strings.Contains(solo, "D1") {
+		c.Inconclusive("C15 shared-statement group: the solo run delivered no row: " + trim(solo, 200))
+		return
+	}
+	for round := 0; round < 3; round++ {
+		var wg sync.WaitGroup
+		got := make([]string, 8)
+		for k := 0; k < 8; k++ {
+			wg.Add(1)
+			go func(k int) {
+				defer wg.Done()
+				got[k] = run(k, tr.YieldFn(uint64(c.Seed)*131+uint64(c.Batch*64+round*8+k)))
+			}(k)
+		}
+		wg.Wait()
+		c.Count("connections_sharing_one_statement_object", 8)
+		for k, g := range got {
+			if g != solo {
+				c.Violate("transcript-differs", "a connection whose parser shares prepared-statement objects with other connections is answered differently next to them", fmt.Sprintf("connection %d of 8: %s; alone: %s", k, trim(g, 400), trim(solo, 400)), nil)
+				return
+			}
+		}
+	}
+	c.Eval("shared statement objects", true)
 }
